@@ -55,8 +55,9 @@ Definition ans_fun (ans : list (name * N * resp V)) (n : name) (_ : N) : resp V 
   | None => RErr
   end.
 
-Record drv := D { ds : ustate V; dsnap : option (list (snap_entry)); dnew : option bool; dok : bool }.
-(* dnew: a NewUpdater is in progress; Some true = registered (its builder will run), Some false = refused *)
+Record drv := D { ds : ustate V; dsnap : option (list (snap_entry)); dnew : list (option nat); dok : bool }.
+(* dnew: the NewUpdater calls in progress, innermost first (a builder may itself call NewUpdater): Some i = registered as
+   updater i (its builder will run), None = refused *)
 
 Definition fail (d : drv) : drv := D (ds d) (dsnap d) (dnew d) false.
 
@@ -90,31 +91,31 @@ Definition titem_step (d : drv) (t : titem) : drv :=
       | None => if wants then fail d
                 else let '(s1, o) := step s (EReg n cl) in
                      if is_out_ok o then let '(s2, o2) := step s1 (ERead (length (us s)) 0%Z) in
-                                         D s2 (dsnap d) (Some true) (dok d)
-                     else D s1 (dsnap d) (Some false) (dok d)
-      | Some None => if wants then D s (dsnap d) (Some false) (dok d) else fail d
+                                         D s2 (dsnap d) (Some (length (us s)) :: dnew d) (dok d)
+                     else D s1 (dsnap d) (None :: dnew d) (dok d)
+      | Some None => if wants then D s (dsnap d) (None :: dnew d) (dok d) else fail d
       | Some (Some (v, b)) =>
           if wants then
             let '(s0, _) := step s (ELookup n v b 0%Z) in
             let '(s1, o) := step s0 (EReg n cl) in
             if is_out_ok o then let '(s2, o2) := step s1 (ERead (length (us s)) 0%Z) in
-                                D s2 (dsnap d) (Some true) (dok d)
+                                D s2 (dsnap d) (Some (length (us s)) :: dnew d) (dok d)
             else fail d
           else fail d
       end
   | TNewDone ok =>
       match dnew d with
-      | Some false => if ok then fail d else D s (dsnap d) None (dok d)
-      | Some true =>
-          (* the builder must have run: the newest updater is live iff NewUpdater succeeded *)
-          match nth_error (us s) (length (us s) - 1) with
+      | None :: r => if ok then fail d else D s (dsnap d) r (dok d)
+      | Some i :: r =>
+          (* the builder must have run: that updater is live iff NewUpdater succeeded *)
+          match nth_error (us s) i with
           | Some u => match uph u, ok with
-                      | PLive, true | PDead, false => D s (dsnap d) None (dok d)
+                      | PLive, true | PDead, false => D s (dsnap d) r (dok d)
                       | _, _ => fail d
                       end
           | None => fail d
           end
-      | None => fail d
+      | [] => fail d
       end
   | TGet i =>
       let '(s1, o) := step s (EGetBegin i 0%Z) in
@@ -163,11 +164,11 @@ Definition titem_step (d : drv) (t : titem) : drv :=
       let reg (s0 : ustate V) :=
         let '(s1, o) := step s0 (EReg n cl) in
         if is_out_ok o then let '(s2, o2) := step s1 (ERead (length (us s0)) 0%Z) in
-                            D s2 (dsnap d) (Some true) (dok d)
+                            D s2 (dsnap d) (Some (length (us s0)) :: dnew d) (dok d)
         else fail d in
       match look with
       | None => if known (st s) n then reg s else fail d
-      | Some None => D s (dsnap d) (Some false) (dok d)
+      | Some None => D s (dsnap d) (None :: dnew d) (dok d)
       | Some (Some (v, b)) => reg (fst (step s (ELate n (Some (v, b)) 0%Z)))
       end
   | TRead n tok =>
@@ -194,9 +195,9 @@ Fixpoint closes_ok (usl : list (updater V)) (closes : list (list nat)) : bool :=
 Definition check (c : case) : bool :=
   match c with
   | Case15 allow init tr blog closes =>
-      let d := fold_left titem_step tr (D (US (init_store allow init) [] []) None None true) in
+      let d := fold_left titem_step tr (D (US (init_store allow init) [] []) None [] true) in
       dok d
-      && match dnew d with None => true | Some _ => false end
+      && match dnew d with [] => true | _ => false end
       && list_beq brec_beq (Updater.blog (ds d)) blog
       && closes_ok (us (ds d)) closes
   end.
